@@ -17,6 +17,7 @@ MUTATIONS = {
         ('reconnect', 'tonic/src/transport/channel/service/reconnect.rs', r'if let Some\(error\) = self\.error\.take\(\) \{\s*tracing::debug!\("error: \{\}", error\);', 'if let Some(error) = self.error.take() {\n            self.state = State::Idle;', 'handing out the parked error also drops the connection'),
     ],
     'C01': [
+        ('decode', 'tonic/src/codec/decode.rs', r'frame\.map_data\(\|mut buf\| buf\.copy_to_bytes\(buf\.remaining\(\)\)\)', 'frame.map_data(|mut buf| buf.copy_to_bytes(buf.chunk().len()))', 'only the first segment of a non-contiguous DATA buffer reaches the decoder'),
         ('decode', 'tonic/src/codec/decode.rs', r'let len = self\.buf\.get_u32\(\) as usize;', 'let len = (self.buf.get_u32() as usize) & 0x00ff_ffff;', 'length prefix read modulo 2^24'),
         ('encode', 'tonic/src/codec/encode.rs', r'buf\.reserve\(HEADER_SIZE\);\s*unsafe \{\s*buf\.advance_mut\(HEADER_SIZE\);\s*\}', 'buf.reserve(HEADER_SIZE);\n    unsafe {\n        buf.advance_mut(HEADER_SIZE - 1);\n    }', 'header slot one byte short'),
         ('encode', 'tonic/src/codec/encode.rs', r'buf\.put_u32\(len as u32\);', 'buf.put_u32((len / 256) as u32);', 'length prefix is not the payload length'),
